@@ -43,7 +43,7 @@ def _drive(eng, script, sched_rng=None, max_iter=20000):
             break
     out = eng.get_output()
     eng.finalize()
-    return out, [float(v) for v in out.t.value] + [float(v) for v in out.data.value]
+    return out, _clip([float(v) for v in out.t.value] + [float(v) for v in out.data.value])
 
 
 def observe(c):
@@ -90,6 +90,20 @@ def observe(c):
     elif kind == "gillespie" and nt >= 3 and c["policy"] in ("on_iteration",):
         runs.append(["other_seed", tr_s, False])          # event times are continuous: they differ as soon as there is an event
     return {"ref": ref, "runs": runs, "drawn_seed_reproduces": drawn_ok, "nsamples": nt, "drawn_seed": out_n.script.rng_seed}
+
+
+CLIP = 1500
+
+
+def _clip(tr):
+    """what a run is represented by: the whole (times + data) when short; otherwise its first and last CLIP numbers, its length and a
+    52-bit digest (sha1) of the part in between - two runs are bit-identical iff these agree (up to a digest collision)"""
+    if len(tr) <= 2 * CLIP:
+        return tr
+    import hashlib
+    import struct
+    h = hashlib.sha1(struct.pack("%dd" % (len(tr) - 2 * CLIP), *tr[CLIP:-CLIP])).hexdigest()
+    return tr[:CLIP] + tr[-CLIP:] + [float(len(tr)), float(int(h[:13], 16))]
 
 
 def emit(c, o):
@@ -140,7 +154,7 @@ def build_items(cases, run=None):
 def check(run):
     rng = random.Random(run.seed)
     sysgen.POOLS["space"] = ["cm", "mm", "dmm", "cmm", "µm", "nm", "dm"]
-    n = 60 if run.tier == "quick" else 1500
+    n = 60 if run.tier == "quick" else 300
     cases = [make_case(rng, run.tier) for _ in range(n)]
     items = build_items(cases, run)
     for it in items:
@@ -155,7 +169,8 @@ def check(run):
                 "simulations of random kinds, under three random partitions into iterate / iterate_n(k, incl. 0) / run(0,1,3 ms), from the "
                 "script stored in the reference trajectory, from a script with rng_seed=None and then from the script stored by that run, "
                 "with another seed (Euler: must be identical; Gillespie with >= 2 recorded events: must differ), and once more in a fresh "
-                "process. Times and data compared bit for bit (exact rationals in Coq). non-trivial = >= 2 samples")
+                "process. Times and data compared bit for bit (exact rationals in Coq; of trajectories longer than 3000 numbers the first and "
+                "last 1500, the length and a sha1 digest of the middle part are compared). non-trivial = >= 2 samples")
     core.decide(run, items, IMPORTS, "accept_C08", oracle, shard=8)
 
 
